@@ -44,3 +44,10 @@ KFN int k_cbor_stringref(unsigned K, const unsigned char* s, unsigned long n, re
     *nev = v.n; *consumed = p->source_.position();
     return ec ? ec.value() : 0;
 }
+// the extents check of multi-dimensional typed arrays (CBOR tags 40/1040): the number of elements the extents claim, from input bytes
+#include <jsoncons/typed_array.hpp>
+KFN int k_mdsize(const unsigned long* ext, unsigned long n, unsigned long* out) {
+    auto r = jsoncons::calculate_mdarray_size(jsoncons::span<const std::size_t>(ext, n));
+    if (!r) return 0;
+    *out = *r; return 1;
+}
